@@ -194,6 +194,10 @@ class RF4CECryptoManager:
             hasattr(packet, "security_enabled")# and
             #packet.security_enabled == 1
         ):
+            # Set the security flag first: the authenticated header and the
+            # MIC placeholder must be those of the secured frame
+            packet.security_enabled = 1
+
             self.nonce = self.generateNonce(packet, source)
             if self.nonce is None:
                 # Missing source address, nonce cannot be generated
@@ -212,10 +216,8 @@ class RF4CECryptoManager:
             ciphertext = cipher.encrypt(plaintext)
             mic = cipher.digest()
 
-            if packet.mic is None:
-                cropping_length = len(plaintext)
-            else:
-                cropping_length = len(plaintext) + 4
+            # the frame always ends with the payload and a 4-byte MIC
+            cropping_length = len(plaintext) + 4
 
             packet.reserved = 1
             header = bytes(packet)[:-cropping_length]
